@@ -627,14 +627,31 @@ fn dump<'tcx>(tcx: TyCtxt<'tcx>, out_path: &str) {
             }
             _ => false,
         };
-        if has_opaque { 0 } else { 1 }
+        // const / static items first: evaluating them (for patterns, array lengths) steals their MIR
+        let is_const = matches!(
+            tcx.def_kind(d.to_def_id()),
+            DefKind::Const { .. } | DefKind::AssocConst { .. } | DefKind::Static { .. }
+        );
+        if is_const {
+            0
+        } else if has_opaque {
+            1
+        } else {
+            2
+        }
     });
     let mut bodies: Vec<(LocalDefId, Body<'tcx>)> = Vec::new();
     let mut stolen: Vec<String> = Vec::new();
     for def in &keys {
         if !matches!(
             tcx.def_kind(def.to_def_id()),
-            DefKind::Fn | DefKind::AssocFn | DefKind::Closure | DefKind::InlineConst
+            DefKind::Fn
+                | DefKind::AssocFn
+                | DefKind::Closure
+                | DefKind::InlineConst
+                | DefKind::Const { .. }
+                | DefKind::AssocConst { .. }
+                | DefKind::Static { .. }
         ) {
             continue;
         }
